@@ -291,6 +291,7 @@ func checkC06(c *Ctx) {
 	c.checkC06Deletes()
 	c.checkOwnerOnlyOps()
 	c.checkOwnerWriters()
+	c.checkOfflineOwnership()
 }
 
 func errorsNewNonNil(v ssa.Value) (bool, bool) {
